@@ -22,36 +22,6 @@ import pipefam
 OBS_TIMEOUT_S = int(os.environ.get('VERIF_OBS_TIMEOUT_S', 60))
 
 
-def _alarm(_sig, _frm):
-    import canon
-    if os.environ.get('VERIF_DEBUG_HANG'):
-        import faulthandler
-        with open('/tmp/verif_hang_%d.txt' % os.getpid(), 'w') as f:
-            faulthandler.dump_traceback(file=f)
-    raise canon.Hang()
-
-
-def _observe(req):
-    """one observation of the implementation; an observation that does not come back within
-    OBS_TIMEOUT_S (normal ones take milliseconds) is reported as {'hang': True}"""
-    import canon
-    import signal
-    import threading
-    timed = threading.current_thread() is threading.main_thread()
-    if timed:
-        old = signal.signal(signal.SIGALRM, _alarm)
-        signal.alarm(OBS_TIMEOUT_S)
-    try:
-        return _observe_inner(req)
-    except canon.Hang:
-        return {'hang': True, 'build': 'hang'}
-    finally:
-        if timed:
-            signal.alarm(0)
-            signal.signal(signal.SIGALRM, old)
-            common.gc_point()
-
-
 def _observe_inner(req):
     try:
         mode = req.get('source_mode', 'pickle')
@@ -68,11 +38,14 @@ def _observe_inner(req):
 
 
 def observe_many(reqs, procs):
-    if procs <= 1 or len(reqs) < 40:
-        return [_observe(r) for r in reqs]
-    ctx = mp.get_context('fork')
-    with ctx.Pool(procs) as pool:
-        return pool.map(_observe, reqs, chunksize=max(1, len(reqs) // (procs * 8)))
+    """every observation runs in a watched worker process (common.robust_map): one that does not come
+    back within OBS_TIMEOUT_S (normal ones take milliseconds) is killed and reported as {'hang': True}"""
+    return common.robust_map(_observe_inner, reqs, procs=max(1, procs), timeout=OBS_TIMEOUT_S,
+                             short_timeout=max(3, OBS_TIMEOUT_S // 12))
+
+
+def _observe(req):
+    return observe_many([req], 1)[0]
 
 
 def load_corpus(prop):
@@ -321,12 +294,13 @@ def run(pp, rep):
             what = next((f['what'] for f in findings if f['id'] == fid), '')
             rep.known(fid, what)
             continue
-        sig = (clause, p['op'])
+        sig = (clause, p['op']) if clause != 'no_termination' else (clause,)
         if sig in seen_sig or reported >= 5:
             continue
         seen_sig.add(sig)
         mode = mode_of.get(id(p), 'pickle')
-        small = shrink(p, lambda q: any(c == clause for c, _ in oracle_fails_on(q, mode)[0]))
+        small = shrink(p, lambda q: any(c == clause for c, _ in oracle_fails_on(q, mode)[0]),
+                       budget=(150 if clause != 'no_termination' else 20))
         fails, obs = oracle_fails_on(small, mode)
         rep.violation({'property': pp.prop, 'kind': 'oracle-failure', 'clause': clause, 'source_mode': mode,
                        'pipeline': small, 'original_pipeline': p,
